@@ -3,6 +3,7 @@
 mod bench;
 mod blocks;
 mod common;
+mod formats;
 mod graphs;
 mod mt;
 mod ring;
@@ -17,6 +18,12 @@ fn main() {
         "ring-trace" => ring::cmd_trace(rest),
         "repeat-replay" => ring::cmd_repeat_replay(rest),
         "bench" => bench::cmd_bench(rest),
+        "codec" => formats::cmd_codec(rest),
+        "reasm" => formats::cmd_reasm(rest),
+        "roundtrip" => formats::cmd_roundtrip(rest),
+        "sink-modes" => formats::cmd_sink_modes(rest),
+        "sink-child" => formats::cmd_sink_child(rest),
+        "sink-crash" => formats::cmd_sink_crash(rest),
         "graph-run" => graphs::cmd_run(rest),
         "mtgraph-run" => graphs::cmd_mt_run(rest),
         "mt-random" => mt::cmd_random(rest),
